@@ -63,13 +63,20 @@ func pageThrough(w *World, q *QuerySpec, f pageFn) ([]item, uint64, bool, error)
 	offset := uint64(0)
 	total := uint64(0)
 	haveTotal := false
+	q.overflowed = false
 	limit := q.Limit
 	if limit == 0 {
 		limit = 3
 	}
 	for page := 0; page < 200; page++ {
+		if page > 0 && q.Rest > 0 {
+			limit = q.Rest
+		}
 		pr := &query.PageRequest{Limit: limit, Reverse: q.Rev}
 		if q.Offset {
+			if offset+limit < offset {
+				q.overflowed = true
+			}
 			pr.Offset = offset
 			pr.CountTotal = q.Count
 		} else {
@@ -132,6 +139,11 @@ func (m *monC20) OnQuery(w *World, q *QuerySpec, mid bool) {
 	}
 	for _, id := range sortedKeys(want) {
 		if seen[id] == 0 {
+			if q.overflowed {
+				// its own class: the request's offset+limit does not fit 64 bits
+				w.Violate("C20", "C20/"+q.Kind+"/missing-item/offset-plus-limit-overflows", "%s %s: %s stored and matching but not returned (limit %d then %d, offset paging, reverse %v filter %q; got %d of %d)", where, q.Kind, id, q.Limit, q.Rest, q.Rev, q.Filter, len(items), len(want))
+				break
+			}
 			w.Violate("C20", "C20/"+q.Kind+"/missing-item", "%s %s: %s stored and matching but not returned (limit %d offset %v reverse %v filter %q; got %d of %d)", where, q.Kind, id, q.Limit, q.Offset, q.Rev, q.Filter, len(items), len(want))
 			break
 		}
